@@ -105,6 +105,9 @@ func (a *ioAnalysis) untestedPath(e ssa.Value, call ssa.Instruction) string {
 					return "" // handed on: covered by the propagation rule
 				}
 			case *ssa.If:
+				if a.consult[x.Cond] && !derived[x.Cond] {
+					return "" // a result of the same call that announces the error is tested (ext_x7.go)
+				}
 				if derived[x.Cond] {
 					// a consultation of e.  Only the edge on which e is known to differ from an EOF
 					// sentinel (but may still be nil or a fault) continues the walk.
@@ -175,6 +178,24 @@ func constChoicesSeen(v ssa.Value, seen map[ssa.Value]bool) ([]int64, bool) {
 		return constChoicesSeen(x.X, seen)
 	case *ssa.ChangeType:
 		return constChoicesSeen(x.X, seen)
+	case *ssa.Call:
+		// the choice was extracted into a function: the union over its returns
+		callee := x.Call.StaticCallee()
+		if callee == nil || len(callee.Blocks) == 0 || callee.Signature.Results().Len() != 1 {
+			return nil, false
+		}
+		var out []int64
+		for _, r := range returns(callee) {
+			if len(r.Results) != 1 {
+				return nil, false
+			}
+			ks, ok := constChoicesSeen(r.Results[0], seen)
+			if !ok {
+				return nil, false
+			}
+			out = append(out, ks...)
+		}
+		return out, len(out) > 0
 	}
 	return nil, false
 }
